@@ -54,6 +54,11 @@ def main(run):
                 run.oblig(f'hash-site[{rel}:{q}@{txt[:40]}]', not bad, 'H', 'typing', 0.0, known=(k == 'known'))
         if n == 0:
             raise RuntimeError('engine H found no hash() site: vacuous')
+    if want(run, 'F'):
+      with anchored(run, 'C19/F'):
+        # first (uncached) and later (cached) evaluations agree: no memoised value read by the listed observables survives an edit it depends on (engine F)
+        from checks.fpart import run_F
+        run_F(run, entry_points=['atoms_order', '__str__', '__hash__', '__format__', 'smiles_atoms_order', 'sssr', 'connected_components', 'pack', 'get_mapping', '_cython_compiled_structure', 'int_adjacency', 'linear_fingerprint', 'morgan_fingerprint', 'linear_hash_set', 'morgan_hash_set', '_atom_identifiers', 'canonicalize', 'standardize', '_chiral_morgan'])
     bounded_part(run, 'C19')
     run.assume('set-iteration tie-breaks (min over an int set, set.pop) depend on the int values and insertion history only - covered by the bounded part',
                'third-party code (lazy_object_proxy, numpy, lxml) is assumed deterministic')
